@@ -35,7 +35,7 @@ class _NoSelector:
 
 
 class SimLoop(asyncio.BaseEventLoop):
-    def __init__(self, horizon: float = 1e9, max_steps: int = 300_000, livelock_steps: int = 20_000):
+    def __init__(self, horizon: float = 1e9, max_steps: int = 300_000, livelock_steps: int = 50_000):
         super().__init__()
         self._now = 0.0
         self._clock_resolution = 1e-9
